@@ -27,6 +27,7 @@ type Lossy struct {
 	ErrDelay time.Duration
 
 	mu        sync.Mutex
+	openFail  bool
 	readLost  error     // sticky read-side failure
 	writeLost bool      // sticky write-side failure
 	LossAt    time.Time // first time the transport reported the loss (zero: not yet)
@@ -39,9 +40,27 @@ func NewLossy(inner transport.Implementation, p *Pipe) *Lossy {
 	return &Lossy{Inner: inner, P: p, ErrDelay: 100 * time.Microsecond}
 }
 
-func (l *Lossy) Open(a *transport.Args) error { return l.Inner.Open(a) }
-func (l *Lossy) Close() error                 { return l.Inner.Close() }
-func (l *Lossy) IsAlive() bool                { return l.Inner.IsAlive() }
+// ErrRefused is what Open returns while OpenFail is set (the device refuses a new connection).
+var ErrRefused = errors.New("sim: connection refused")
+
+// SetOpenFail makes the next transport opens fail (true) or pass through to the simulator (false).
+func (l *Lossy) SetOpenFail(b bool) {
+	l.mu.Lock()
+	l.openFail = b
+	l.mu.Unlock()
+}
+
+func (l *Lossy) Open(a *transport.Args) error {
+	l.mu.Lock()
+	f := l.openFail
+	l.mu.Unlock()
+	if f {
+		return ErrRefused
+	}
+	return l.Inner.Open(a)
+}
+func (l *Lossy) Close() error  { return l.Inner.Close() }
+func (l *Lossy) IsAlive() bool { return l.Inner.IsAlive() }
 
 func (l *Lossy) mark(kind string) {
 	if l.LossAt.IsZero() {
